@@ -97,7 +97,7 @@ def r_dup(ctx, prog, codecs):
 def r_count(ctx, prog, codecs):
     R = 'R-COUNT'
     ctx.rule(R, 'in each per-symbol decode routine the source-symbol counter is incremented by one exactly under "esi < k", the '
-             'all-symbols / repair counter exactly in the complementary situation it stands for', floor=2)
+             'all-symbols / repair counter exactly in the complementary situation it stands for', floor=1)
     for fam in RS_FAMILY:
         if fam['codec'] not in codecs:
             continue
